@@ -303,7 +303,7 @@ func c12Quit(c *Ctx, m *searchModel) {
 					continue
 				}
 				n++
-				if pathExpr(args[off]) != fn.Params[1].Name() {
+				if pathExpr(args[off]) != paramName(fn.Params[1]) {
 					bad = joinNonEmpty(bad, fmt.Sprintf("%s searches a nested node under context %s instead of its own", c.P.FuncName(fn), pathExpr(args[off])))
 				}
 			}
